@@ -156,7 +156,7 @@ fn decode(t: &mut Tape) -> Case {
     }
     let unit = t.below(n);
     let to = t.below(n);
-    let x = gen_amount(t, Dom::Moderate);
+    let x = if t.bool(1, 6) { gen_amount(t, Dom::Any) } else { gen_amount(t, Dom::Moderate) };
     Case::Table {
         host,
         note: format!("{}: {} unit #{} -> unit #{} through {} entries", hs[host].name, amt::show(x), unit, to, entries.len()),
@@ -297,7 +297,7 @@ pub fn check(case: &Case) -> Verdict {
             let Some(x) = amt::from_key(amount) else {
                 return Verdict::Discard("amount key");
             };
-            if entries.len() > 8 || *unit >= n || *to >= n || !amt::is_finite(x) {
+            if entries.len() > 8 || *unit >= n || *to >= n {
                 return Verdict::Discard("domain");
             }
             let mut es: Vec<E> = vec![];
@@ -341,11 +341,26 @@ pub fn check(case: &Case) -> Verdict {
                     if q.1 != *to {
                         fail!("{}: result is in unit #{}", note, q.1);
                     }
+                    let dup = es.iter().filter(|e| e.0 == *unit && e.1 == *to).count() > 1;
+                    // "all amounts": a non-finite amount or an overflowing
+                    // product still selects the first matching entry; the
+                    // value is the amount type's own x * f + o
+                    let own = catch(|| x * es[i].2 + es[i].3);
+                    if !amt::is_finite(x) || matches!(own, Ok(v) if !amt::is_finite(v)) {
+                        return match own {
+                            Ok(v) if amt::same(q.0, v) || (!amt::is_finite(v) && !amt::is_finite(q.0) && amt::is_nan(v) == amt::is_nan(q.0)) => {
+                                pass("table/non-finite", true)
+                            }
+                            other => Verdict::Fail(format!(
+                                "{}: result {} but entry #{} gives {:?}",
+                                note, amt::show(q.0), i, other.map(amt::show)
+                            )),
+                        };
+                    }
                     let rx = amt::to_rat(x).unwrap();
                     let f = amt::to_rat(es[i].2).unwrap();
                     let o = amt::to_rat(es[i].3).unwrap();
                     let exact = rx.mul(&f).add(&o);
-                    let dup = es.iter().filter(|e| e.0 == *unit && e.1 == *to).count() > 1;
                     match affine_budget(&rx, &f, &o) {
                         None => pass("table/extreme", true),
                         Some(b) => {
